@@ -84,6 +84,11 @@ mutual
     | _, _, _ => false
 end
 
+theorem fitsNth_ne {cs : List Init} {ms : Members} {k : Nat} (h : fitsNth cs ms k = true) : ms.isEmpty = false := by
+  cases ms with
+  | nil => cases cs <;> cases k <;> simp [fitsNth] at h
+  | cons m r => rfl
+
 /-! ### static storage -/
 
 /-- what `write_gvar_data` does at one leaf -/
@@ -266,7 +271,7 @@ mutual
     | .union none none cs, .union ms _ _, path, _, h, hn => by
       simp only [fits, Bool.and_eq_true] at h
       simp only [hasExpr, Option.isSome_none, Bool.false_or] at hn
-      simp only [createLvarInit, Option.getD_none]
+      simp only [createLvarInit, Option.getD_none, fitsNth_ne h.1, Bool.false_eq_true, ↓reduceIte]
       exact createLvarNth_noExpr cs ms 0 path h.1 hn
     | .union none (some k) cs, .union ms _ _, _, _, _, hn => by simp [hasExpr] at hn
     | .leaf none, .scalar _ _, _, _, _, _ => by simp [createLvarInit]
@@ -360,11 +365,11 @@ mutual
     | .union none none cs, .union ms _ _, path, h => by
       simp only [fits, Bool.and_eq_true, Bool.not_eq_true'] at h
       refine ⟨[], ?_, by simp [leaves, SameAs]⟩
-      simp only [createLvarInit, Option.getD_none]
+      simp only [createLvarInit, Option.getD_none, fitsNth_ne h.1, Bool.false_eq_true, ↓reduceIte]
       exact createLvarNth_noExpr cs ms 0 path h.1 h.2
     | .union none (some k) cs, .union ms _ _, path, h => by
       simp only [fits] at h
-      simp only [createLvarInit, leaves, Option.getD_some]
+      simp only [createLvarInit, leaves, Option.getD_some, fitsNth_ne h, Bool.false_eq_true, ↓reduceIte]
       exact createLvarNth_leaves cs ms k path h
     | .leaf none, .scalar _ _, _, _ => ⟨[], by simp [createLvarInit], by simp [leaves, SameAs]⟩
     | .leaf (some e), .scalar sz kind, path, _ =>
